@@ -1695,8 +1695,8 @@ func (s *Netceptor) handleMessageData(md *MessageData) error {
 		s.listenerLock.RUnlock()
 		select {
 		case <-pc.context.Done():
-			close(pc.recvChan)
-
+			// The socket has been closed.  Its readers learn that from the context; the receive
+			// channel is not closed here, because several deliverers may get to this point.
 			return nil
 		case pc.recvChan <- md:
 		}
